@@ -34,6 +34,14 @@ CheckStatus(e, post) ==
   \cup (IF \A d \in Range(post) : (d.status \in {RESOLVED, UNRESOLVED} /\ Has(disp, d.id) /\ ById(disp, d.id).status = VOTING) => ResultOf(d) # 0
         THEN {} ELSE {"LeavesVotingOnlyWithATally"})
 
+\* the 1-, 2- and 3-day deadlines: a dispute waiting for its fee ends one day after it was opened; once voting starts the
+\* vote lasts two days and the dispute (room for further rounds) three days from that moment
+CheckDeadlines(post) ==
+  IF \A d \in Range(post) :
+        /\ (d.status = PREVOTE => d.endn = d.startn ++ DayNs)
+        /\ ((d.status = VOTING /\ "vote" \in DOMAIN d) => (d.vote.endn = d.vote.startn ++ (N(2) ** DayNs) /\ d.endn = d.vote.startn ++ (N(3) ** DayNs)))
+  THEN {} ELSE {"DeadlinesAreOneTwoAndThreeDays"}
+
 CheckNew(e, post) ==
   LET new == { d \in Range(post) : ~Has(disp, d.id) } IN
   (IF \A d \in new : \A p \in Range(disp) : p.id < d.id THEN {} ELSE {"DisputeIdsIncrease"})
@@ -136,7 +144,7 @@ Check(e) ==
   SMCheck(e, e.post.dispute.disputes) \cup
   LET post == e.post.dispute.disputes
       pv == e.post.dispute.voters
-  IN CheckStatus(e, post) \cup CheckNew(e, post)
+  IN CheckStatus(e, post) \cup CheckNew(e, post) \cup CheckDeadlines(post)
      \cup (IF e.ev = "Vote" THEN CheckVote(e, post, pv)
            ELSE IF e.ev \in {"ClaimReward"} THEN {}
            ELSE (IF \A v \in Range(voters) : \E w \in Range(pv) : w.id = v.id /\ w.who = v.who /\ w.choice = v.choice /\ w.power = v.power THEN {} ELSE {"VotesNeverAlteredByOtherOperations_" \o e.ev}))
